@@ -39,6 +39,9 @@ fn one<C: Cs>(ctx: &Ctx, st: &Setup<C>, other: Option<&Setup<C>>, r: &mut impl r
         Ok(p2) if p2 == proof && verify(&p2, &cpk, st.pk(), &bases, &revealed, &u, n) => {}
         _ => ctx.violation("C15:json-roundtrip", json!({"case":case})),
     }
+    if let Some(mode) = json_modes(&proof) {
+        ctx.violation("C15:json-roundtrip", json!({"case":case,"mode":mode}));
+    }
     let reject = |kind: &str, f: &dyn Fn() -> bool| {
         let full = format!("{}/{}", case, kind);
         ctx.distinct(&full);
